@@ -89,7 +89,7 @@ def install():
     pc._threading = _ThreadingProxy()
 
 
-def hold_next_cull(clock, dt=61.0, timeout=20.0):
+def hold_next_cull(clock, dt=61.0, timeout=120.0):
     """Advance virtual time past the keep-alive so the plan-cache thread starts
     a cull, and park it inside the cull lock.  Returns True if it is parked."""
     clock.settle()
